@@ -47,6 +47,7 @@ def t_types(rep, prog, rule):
         f = prog.fn_by_name(name)
         rep.touch(f)
         sym = Sym(f)
+        arms = []
         for c in f.calls():
             targs = [t for t in c.targs() if t in pt]
             if not targs:
@@ -68,6 +69,7 @@ def t_types(rep, prog, rule):
             if not roles:
                 continue
             n += 1
+            arms.append(c)
             key = "%s|%s" % (name, ",".join(t.replace("pixels::Pixel", "P") for t in targs))
             want = []
             if "single" in roles:
@@ -82,6 +84,28 @@ def t_types(rep, prog, rule):
             else:
                 rep.bad(rule, key, c.at, "%s: the arm for pixel type %s instantiates %s (whose "
                         "pixel_type() is %s)" % (name, want, targs, got))
+        # all arms of one table do the same thing: they call one generic function and differ in
+        # its type arguments only (an arm of divide_alpha_inplace that calls the multiply helper
+        # type-checks -- the helpers have one signature)
+        by = {}
+        for c in arms:
+            by.setdefault(c.id, []).append(c)
+        if len(by) > 1:
+            top = max(by.values(), key=len)
+            for cid, cs in sorted(by.items()):
+                if cs is top:
+                    continue
+                for c in cs:
+                    k2 = "%s|%s|callee" % (name, ",".join(t.replace("pixels::Pixel", "P")
+                                                          for t in c.targs() if t in pt))
+                    if len(cs) * 2 < len(top):
+                        rep.bad(rule, k2, c.at, "%s: this arm calls %s, the other %d arms call %s: the "
+                                "dynamic entry point does another operation for this pixel type than "
+                                "the typed one" % (name, c.name, len(top), top[0].name))
+                    else:
+                        rep.unk(rule, k2, c.at, "arms call %s and %s" % (c.name, top[0].name))
+        elif arms:
+            rep.ok(rule, "%s|callee" % name, f.loc, "all %d arms call %s" % (len(arms), arms[0].name))
     rep.floor(rule, "typed instantiations in PixelType tables", n, 60)
 
 
